@@ -181,6 +181,8 @@ class Gen:
                     return a.word_select(0, 0)
                 return a.word_select(rng.randint(0, n // w - 1) if n // w else 0, w)
             off = self.small_unsigned(depth - 1, 3)
+            if op == "word_select" and w == 0:
+                w = 1          # a zero stride is rejected at construction
             return a.bit_select(off, w) if op == "bit_select" else a.word_select(off, w)
         if op == "cat":
             k = rng.randint(0, 3)
@@ -226,3 +228,80 @@ class Gen:
                 cases.append((pats, self.expr(depth - 1) if i else a))
             return SwitchValue(test, cases)
         return None
+
+
+class TargetGen:
+    """assignable targets over a pool of signals (signal, slice, index, cat, bit/word_select with
+    signal offsets incl. beyond the target, array element, as_signed/as_unsigned, nested)"""
+
+    def __init__(self, rng, sigs, offs, alias=False, hist=None):
+        self.rng = rng
+        self.sigs = sigs          # candidate target signals
+        self.offs = offs          # unsigned signals usable as offsets / indices
+        self.alias = alias
+        self.used = set()
+        self.hist = hist if hist is not None else {}
+
+    def note(self, k):
+        self.hist[k] = self.hist.get(k, 0) + 1
+
+    def leaf(self):
+        rng = self.rng
+        cands = [s for s in self.sigs if self.alias or id(s) not in self.used]
+        if not cands:
+            return None
+        s = rng.choice(cands)
+        self.used.add(id(s))
+        return s
+
+    def offset(self):
+        rng = self.rng
+        o = rng.choice(self.offs)
+        r = rng.random()
+        if r < 0.2 and len(o) > 1:
+            return o[:rng.randint(0, len(o))]      # possibly zero-width selector
+        if r < 0.3:
+            return o + rng.choice(self.offs)
+        return o
+
+    def target(self, depth):
+        rng = self.rng
+        if depth <= 0 or rng.random() < 0.2:
+            return self.leaf()
+        kind = rng.choice(["slice", "index", "cat", "bit_select", "word_select", "array", "u", "s", "slice"])
+        self.note(kind)
+        if kind == "cat":
+            parts = [self.target(depth - 1) for _ in range(rng.randint(1, 3))]
+            parts = [p for p in parts if p is not None]
+            if not parts:
+                return None
+            return Cat(*parts)
+        if kind == "array":
+            elems = [self.target(depth - 1) for _ in range(rng.randint(1, 4))]
+            elems = [p for p in elems if p is not None]
+            if not elems:
+                return None
+            from amaranth.hdl import Value
+            return Value.cast(Array(elems)[self.offset()])
+        t = self.target(depth - 1)
+        if t is None:
+            return None
+        n = len(t)
+        if kind == "slice":
+            s = rng.randint(0, n)
+            return t[s:rng.randint(s, n)]
+        if kind == "index":
+            if n == 0:
+                return t
+            return t[rng.randint(-n, n - 1)]
+        if kind == "bit_select":
+            return t.bit_select(self.offset(), rng.randint(0, n + 1))
+        if kind == "word_select":
+            return t.word_select(self.offset(), rng.randint(1, max(1, n // 2 + 1)))
+        if kind == "u":
+            return t.as_unsigned()
+        if kind == "s":
+            if n == 0:
+                return t
+            return t.as_signed()
+        return t
